@@ -110,7 +110,10 @@ def entry_points(obj):
             continue
         if not READ_NAME.search(name):
             if name == "replace":
-                out.append(("call", "replace", {"pattern": "a"}))
+                # without a replacement text replace() only counts
+                for pat in ("a", "e", " ", r"\s+"):
+                    out.append(("call", "replace", {"pattern": pat}))
+                    out.append(("call", "replace", {"pattern": pat, "formatted": True}))
             continue
         try:
             sig = inspect.signature(getattr(obj, name))
